@@ -1875,6 +1875,13 @@ class FunctionBody:
             self.tr.shim_used.add('upper_bound')
             b = self.expr(a[0])
             return '(%s + wb_upper_bound_idx(%s, (size_t)(%s - %s), %s))' % (b, b, self.expr(a[1]), b, self.expr(a[2]))
+        if name == 'fill' and len(a) == 3:
+            # std::fill(v.begin(), v.end(), value) over a whole vector: every element becomes value
+            b_, e_ = self.expr(a[0]), self.expr(a[1])
+            m_ = re.match(r'^\(&(.+)\.data\[0\]\)$', b_)
+            if m_ and e_ == '(&%s.data[%s.n])' % (m_.group(1), m_.group(1)):
+                return 'WB_FILL(%s, %s)' % (m_.group(1), self.expr(a[2]))
+            brk('std::fill over a partial range', n)
         if name == 'distance' and len(a) == 2:
             return 'WB_PTRDIFF(%s, %s)' % (self.expr(a[1]), self.expr(a[0]))
         if name == 'move' and len(a) == 1:
